@@ -226,7 +226,9 @@ def run(chk):
     decide(chk, "B1.ctz", "ctz", m, "ctz", 32, spec_ctz)
     decide(chk, "B1.ilog2", "ilog2", m, "ilog2", 32, spec_ilog2, care=nonzero, what="ilog2 (x > 0)")
     try:
-        w = build.compile_text("c16_witness.c", MACRO_WITNESS)
+        # the macros as user code sees them: whatever they expand to is linked with bitops.c and inlined into the witnesses
+        w = build.api_view("c16_api.c", MACRO_WITNESS, ["librfn/bitops.c"],
+                           ["w_const_pop", "w_const_lssb", "w_const_lssb_negative", "w_const_pop32", "w_const_lssb32", "w_const_pop_s32"])
         chk.note_unit(w)
         decide(chk, "B2.const_pop", "const_pop(uint64_t run-time value)", w, "w_const_pop", 64, spec_popcount, what="const_pop")
         decide(chk, "B2.const_lssb", "const_lssb(uint64_t run-time value)", w, "w_const_lssb", 64,
